@@ -91,6 +91,37 @@ theorem validate_sound_batch (b : VBatch) (h : batchValidate {} b = true) :
   | none => simp [hd] at hcd
   | some d => exact ⟨d, rfl, by simpa [hd] using hcd⟩
 
+/-- **validate_sound_iat_batch**: an IAT batch accepted under default options (the Reader validates every IAT batch at
+its batch control record) satisfies the same clauses — count, hash, totals (IAT copy of the credit / debit lists, equal
+to the standard one by `classification_consistent`), header/control agreement, trace numbers strictly ascending and
+starting with the header's ODFI, every entry's check digit -/
+theorem validate_sound_iat_batch (b : VBatch) (h : iatBatchValidate {} b = true) :
+    entryCount b.entries = b.control.entryAddendaCount ∧
+    batchHash b.entries = b.control.entryHash ∧
+    iatDebitTotal b.entries = b.control.totalDebit ∧ iatCreditTotal b.entries = b.control.totalCredit ∧
+    b.header.serviceClass = b.control.serviceClass ∧ b.header.odfi = b.control.odfi ∧
+    b.header.batchNumber = b.control.batchNumber ∧
+    tracesAscend ['-', '1'] b.entries = true ∧ iatTracePrefixOK (stringField b.header.odfi 8) b.entries = true ∧
+    (∀ e ∈ b.entries, ∃ d, atoi e.checkDigit = some d ∧ calculateCheckDigit (stringField e.rdfi 8) = d) := by
+  simp only [iatBatchValidate, Bool.and_eq_true, Bool.or_eq_true, decide_eq_true_eq, Bool.false_eq_true, false_or,
+    List.all_eq_true, Bool.not_eq_true'] at h
+  obtain ⟨⟨⟨⟨⟨⟨⟨⟨⟨⟨⟨_, _⟩, hent⟩, hsc⟩, hodfi⟩, hbn⟩, hcnt⟩, hasc⟩, hdeb⟩, hcred⟩, hhash⟩, hpre⟩ := h
+  refine ⟨hcnt, hhash, hdeb, hcred, hsc, hodfi, hbn, hasc, hpre, ?_⟩
+  intro e he
+  have h1 := hent e he
+  simp only [iatEntryOK, Bool.and_eq_true] at h1
+  obtain ⟨_, hcd⟩ := h1
+  cases hd : atoi e.checkDigit with
+  | none => simp [hd] at hcd
+  | some d => exact ⟨d, rfl, by simpa [hd] using hcd⟩
+
+/-- the IAT totals are the standard totals (the two copies of the code lists agree on the current source) -/
+theorem iat_totals_eq_standard (es : List VEntry) : iatCreditTotal es = creditTotal es ∧ iatDebitTotal es = debitTotal es := by
+  have h := classification_consistent
+  unfold iatCreditTotal iatDebitTotal creditTotal debitTotal
+  rw [← h.2.2.1, ← h.2.2.2.1]
+  exact ⟨rfl, rfl⟩
+
 /-- **validate_sound_file_partial**: an accepted non-ADV file has a file control equal to the sums over its batch
 controls, ascending batch numbers, and every *standard* batch satisfies `validate_sound_batch`.
 (IAT batches are only summed, never validated, by `File.ValidateWith`: known finding D6.) -/
@@ -106,6 +137,14 @@ theorem validate_sound_file_partial (f : VFile) (h : fileValidate {} f = true) :
     List.all_eq_true] at h
   obtain ⟨⟨⟨⟨⟨⟨⟨⟨_, hbc⟩, hb⟩, _⟩, hcnt⟩, hd⟩, hc⟩, hasc⟩, hh⟩ := h
   exact ⟨hbc, hcnt, hd, hc, hh, hasc, hb⟩
+
+/-- non-vacuity: an IAT credit batch with foreign-looking traces starting with the ODFI is accepted -/
+example : iatBatchValidate {} {
+    header := ⟨220, [], "12345678".toList, 1⟩,
+    entries := [⟨22, "99999999".toList, "2".toList, 100, "123456780000001".toList, 7, true⟩,
+                ⟨32, "99999999".toList, "2".toList, 250, "123456780000002".toList, 8, true⟩],
+    control := ⟨220, 17, 199999998, 0, 350, [], "12345678".toList, 1⟩,
+    extraOK := true } = true := by decide
 
 /-! ## hash -/
 
